@@ -123,8 +123,21 @@ pub fn gen_name(r: &mut Rng) -> String {
 pub fn tag_names() -> Vec<String> {
     let mut v: Vec<String> = mpdspec::named_tags().iter().map(|(_, n)| n.to_string()).collect();
     v.extend(["Mood", "x-custom", "my_tag", "TitleSort", "X-AlbumUri", "MUSICBRAINZ_RELEASEGROUPARTISTID", "a_tag_name_that_is_rather_longer_than_any_name_mpd_uses_today_but_perfectly_valid"].iter().map(|s| s.to_string()));
+    // names tagging tools use that are NOT MPD tag names (a library must not fold them onto MPD's tags)
+    for n in PLAUSIBLE_UNKNOWN_TAG_NAMES {
+        if !mpdspec::named_tags().iter().any(|(_, k)| k.eq_ignore_ascii_case(n)) {
+            v.push(n.to_string());
+        }
+    }
     v
 }
+
+pub const PLAUSIBLE_UNKNOWN_TAG_NAMES: &[&str] = &[
+    "Year", "TrackNumber", "DiscNumber", "Description", "Lyrics", "BPM", "Rating", "Compilation", "ISRC", "Copyright", "EncodedBy", "Language", "Subtitle", "Remixer", "Producer", "Lyricist",
+    "Engineer", "TotalTracks", "TotalDiscs", "Publisher", "Barcode", "CatalogNumber", "Media", "Script", "ReleaseCountry", "ReleaseStatus", "ReleaseType", "Website", "Key", "Writer", "Arranger",
+    "DJMixer", "Mixer", "OriginalYear", "OriginalArtist", "OriginalAlbum", "Track-Number", "Disc-Number", "Album-Artist", "Album_Artist", "Tracknum", "Discnum", "Band", "Orchestra", "Interpret",
+    "Songwriter", "Author", "Text", "Notes", "Content", "Group", "Set", "Part", "Section", "Length", "Duration_", "Filename", "Path", "URL", "Range_", "Ident", "Position", "Priority", "Times",
+];
 
 /// Canonical protocol name of a tag key as MPD/the crate documents it: known names are matched
 /// case-insensitively and spelled canonically, unknown ones are kept verbatim.
